@@ -95,6 +95,12 @@ pub struct History {
     pub label_selector: Option<String>,
     pub page_size: Option<u32>,
     pub initial: Vec<Value>,
+    /// events applied after the initial objects and before the adapter exists
+    pub pre_events: Vec<Ev>,
+    /// `Some(lag)`: the watcher runs with streaming lists (`sendInitialEvents=true`); the initial
+    /// events are a snapshot taken `lag` ADDED/MODIFIED events before the head, followed by those
+    /// events, so a server can be reported more than once before the initial-events-end bookmark
+    pub stream_lag: Option<usize>,
     pub steps: Vec<Step>,
 }
 
@@ -123,6 +129,8 @@ impl History {
             "label_selector": self.label_selector,
             "page_size": self.page_size,
             "initial": self.initial,
+            "pre_events": self.pre_events.iter().map(|e| e.to_json()).collect::<Vec<_>>(),
+            "stream_lag": self.stream_lag,
             "steps": steps,
         })
     }
@@ -170,6 +178,8 @@ impl History {
             label_selector: v.get("label_selector").and_then(|x| x.as_str()).map(String::from),
             page_size: v.get("page_size").and_then(|x| x.as_u64()).map(|x| x as u32),
             initial: v.get("initial")?.as_array()?.clone(),
+            pre_events: v.get("pre_events").and_then(|x| x.as_array()).map(|a| a.iter().filter_map(Ev::from_json).collect()).unwrap_or_default(),
+            stream_lag: v.get("stream_lag").and_then(|x| x.as_u64()).map(|x| x as usize),
             steps,
         })
     }
@@ -807,6 +817,17 @@ pub fn generate(seed: u64, index: u64, max_steps: usize, faults: usize) -> Histo
             (((slot * 3) % nk) as usize, ((slot / nk + slot) % nc) as usize)
         })
         .collect();
+    // every fourth history runs the watcher with streaming lists (no paged LIST, so no list failures)
+    let stream_lag = if index % 4 == 3 { Some(Rng::stream(seed, index ^ 0x5712_0000).usize_below(4)) } else { None };
+    if stream_lag.is_some() {
+        for (k, _) in plan.iter_mut() {
+            *k = match *k {
+                5 => 3,
+                7 => 4,
+                k => k,
+            };
+        }
+    }
     plan.sort_by_key(|(k, _)| std::cmp::Reverse(fault_errors(*k)));
     let mut errors = 0usize;
     for (k, _) in plan.iter_mut() {
@@ -839,6 +860,14 @@ pub fn generate(seed: u64, index: u64, max_steps: usize, faults: usize) -> Histo
         };
         if let Some(ev) = ev {
             initial.push(ev.object);
+        }
+    }
+
+    // streaming histories: the log already has a tail when the adapter connects
+    let mut pre_events = Vec::new();
+    if let Some(lag) = stream_lag {
+        for _ in 0..lag {
+            pre_events.push(g.ev_random());
         }
     }
 
@@ -913,6 +942,8 @@ pub fn generate(seed: u64, index: u64, max_steps: usize, faults: usize) -> Histo
         label_selector,
         page_size,
         initial,
+        pre_events,
+        stream_lag,
         steps,
     }
 }
